@@ -55,6 +55,36 @@ CLAIMS = {
         "Trusted: sync.Pool semantics; handlers do not retain *Context after the request; go/ssa.",
         "DESIGN.md 5 (C10)",
     ),
+    "C04": (
+        "path-sensitive sequence-shape evaluation of chain values (E-SEQ) + cursor monotonicity (dominance/path rules over SSA)",
+        "Decides for every registration program and every handler behaviour: each of the chain-building sites concatenates in the "
+        "documented order (global, read at request time, ++ group ++ route ++ [main handler]; global ++ fallback chains), derived from "
+        "how slices are appended/copied, not from data; the executor invokes handlers[index] from exactly one place, in a loop guarded "
+        "by index < len, with index+1 on every path to and between invocations and no other cursor writes in the request path (so: at "
+        "most once, in order, automatic continuation). The reverse order of code after Next() is argued from the call stack, not checked.",
+        "Trusted: go/ssa lowering of append/copy/composite literals; handlers do not call SetHandlers/Reset on their own context mid-chain.",
+        "DESIGN.md 5 (C04)",
+    ),
+    "C05": (
+        "all-paths store of the sentinel (typestate), loop-condition re-read, limit-check dominance over growth sites of chain lists",
+        "Decides for every chain shape and abort position: all abort entry points park the cursor at the single sentinel on every path, "
+        "AbortWithStatus records the caller's status first, IsAborted compares with >= sentinel, the executor re-reads the cursor after "
+        "every handler and abort never unwinds; every list that becomes part of an executed chain must be bounded below the sentinel "
+        "where it grows. The last clause fails on the pinned tree (F14, known finding: global / not-found / not-allowed lists and the "
+        "executed sum are unbounded).",
+        "Trusted: handlers cannot write the unexported cursor; go/ssa.",
+        "DESIGN.md 5 (C05)",
+    ),
+    "C12": (
+        "save/restore pairing on all paths (dominance + must-pass-through), alias analysis of the stored chain (E-SEQ fresh bit), who-may-write, call-graph containment",
+        "Decides for all registration programs: Group restores exactly the two scope fields, on every path from the callback to return, "
+        "to the values loaded before any store, extends them only before the callback and writes no other router field; the chain a "
+        "route receives from the group list is a fresh copy; Use extends the group list iff inside a group; Controller/Resource "
+        "register only inside the function literal passed to Group. It does not decide the string-level 'reachable exactly under the "
+        "concatenated prefixes' (C11) nor behaviour when the callback panics.",
+        "Trusted: registration is single-threaded; go/ssa.",
+        "DESIGN.md 5 (C12)",
+    ),
 }
 
 NOT_APPLICABLE = {}
